@@ -21,9 +21,9 @@ LEVELS = {'C18': 'exploration'}
 WALL_LIMIT = {('C18', 'quick'): 180, ('C18', 'thorough'): 180}
 SHRINK = {'C18': (45, 60)}
 PROBES = {'C18': web.PROBES['C18'] + ['crawl_level', 'crawl.robots_perpetual_5xx', 'crawl.robots_reset', 'crawl.robots_ok', 'crawl.perpetual_5xx', 'crawl.reset', 'crawl.refused', 'crawl.stall', 'crawl.redirect_loop',
-                                     'crawl.tries_exhausted', 'crawl.waitretry', 'crawl.retry_connrefused', 'crawl.concurrency>1']}
+                                     'crawl.tries_exhausted', 'crawl.several_starts', 'crawl.waitretry', 'crawl.retry_connrefused', 'crawl.concurrency>1']}
 INFO = {'C18': dict(web.INFO['C18'], rule=web.INFO['C18']['rule'] + ' ; crawl level: site with 1..3 perpetually failing URLs (kind drawn) x --tries '
-                    '{1,2,3,5} x --max-redirect x --retry-connrefused x --waitretry x concurrency; visits are identified by the item try count '
+                    '{1,2,3,5,7,10} x 1..4 start URLs x --max-redirect x --retry-connrefused x --waitretry x concurrency; visits are identified by the item try count '
                     'seen at the server')}
 INFO['C18']['components'] = {'real': web.INFO['C18']['components']['real'] + ['whole application (crawl level): processors, ResultRule, TriesFilter, URL table, waiter'],
                              'stub': web.INFO['C18']['components']['stub']}
@@ -41,7 +41,7 @@ def run(tape, prop, tier):
         os.chdir(sandbox)
         site, starts, pages, assets, redirects = refsite.gen_site(tape, nhosts=1, npages=tape.between(3, 6, 'site.npages'), with_redirects=False)
         main = site.origins[0]
-        tries = tape.choice((1, 2, 3, 5), 'tries')
+        tries = tape.choice((1, 2, 3, 5, 7, 10), 'tries')
         max_redirect = tape.choice((20, 5, 2, 0), 'max_redirect')
         waitretry = tape.choice((0, 1, 10), 'waitretry')
         retry_refused = tape.chance(1, 2, 'retry_connrefused')
@@ -60,6 +60,11 @@ def run(tape, prop, tier):
             src.links.append((res, res.url))
             r.probes['crawl.' + kind] += 1
             r.faults['crawl.' + kind] += 1
+        # several start URLs: more than --max-host-count (6) failing visits on one host must not exhaust anything
+        if tape.chance(1, 3, 'starts.more'):
+            extra_starts = [p for p in pages if p not in starts and p.origin.key() == main.key()][:tape.between(1, 3, 'starts.n')]
+            starts = list(starts) + extra_starts
+            r.probes['crawl.several_starts'] += 1
         site.finalize()
         # robots.txt itself may be the thing that keeps failing
         robots_mode = tape.choice((None, None, 'perpetual_5xx', 'reset', 'ok'), 'robots.mode')
